@@ -1,0 +1,12 @@
+//go:build verif
+// +build verif
+
+package isaacblock
+
+import "github.com/spikeekips/mitum/base"
+
+// IsValidVoteproofsFromLocalFSVerif exposes the voteproofs step of
+// IsValidBlockFromLocalFS to the verification harness.
+func IsValidVoteproofsFromLocalFSVerif(networkID base.NetworkID, vps [2]base.Voteproof, m base.Manifest) error {
+	return isValidVoteproofsFromLocalFS(networkID, vps, m)
+}
